@@ -574,6 +574,14 @@ impl Sim {
                 roles.push(a[..a.len() - 1].to_string());
             }
         }
+        // A transaction sender is always a normalised address on chain; a string the address codec
+        // rejects (a malformed whitelist entry such as "Owner", which the stub codec folds onto
+        // "owner") can never be a caller.
+        {
+            use cosmwasm_std::Api;
+            let api = cosmwasm_std::testing::MockApi::default();
+            roles.retain(|r| api.addr_validate(r).is_ok());
+        }
         roles.sort();
         roles.dedup();
         // ---- messages: (target, json, must_succeed_for_authorised)
